@@ -266,6 +266,11 @@ def run(shard, ctx):
                         if v is None and c.args.get(k, (None,))[0] == "atadata":
                             full[k] = None
                     resp = response_for(c, full, rng)
+                    if c.facade_unmarshall and rng.random() < 0.25:
+                        # arbitrary device-provided contents: whatever they are, one command is sent and the result (or the
+                        # error) is that of decoding exactly these bytes
+                        resp = bytes(rng.getrandbits(8) for _ in range(rng.choice([4, 8, 36, 96, 200, 1024])))
+                        ctx.count("arbitrary_buffer_contents")
                     state = {}
 
                     def fill(cmd, resp=resp, state=state):
@@ -326,7 +331,9 @@ def run(shard, ctx):
                                 ctx.fail("C13:%s.raises_after_send.%s.%s" % (c.facade, subkey, type(err).__name__),
                                          "%s raised %s after the command was sent although the response decodes: %s" % (c.facade, type(err).__name__, err), wit, exc=err)
                             except Exception as e2:  # noqa: BLE001
-                                if type(e2) is not type(err):
+                                # SCSICommand.unmarshall reports an AttributeError raised inside a decoder as NotImplementedError
+                                wrapped = isinstance(e2, AttributeError) and isinstance(err, NotImplementedError)
+                                if type(e2) is not type(err) and not wrapped:
                                     ctx.fail("C13:%s.raises_after_send.%s.%s" % (c.facade, subkey, type(err).__name__),
                                              "%s raised %s, decoding the response raises %s" % (c.facade, type(err).__name__, type(e2).__name__), wit, exc=err)
                                 else:
